@@ -180,11 +180,76 @@ def pathspec_crosscheck(depth):
     return probs
 
 
+WALK_DIRS = ["src", ".hid", "tests"]
+WALK_FILES = ["m.py", ".m.py", "m.txt", "m.c"]
+
+
+def walk_orders(arg):
+    """The tiny tree of Walk.tla scanned for real under a permuted os.walk order."""
+    order_seed = arg
+    from codelimit.common.Configuration import Configuration
+    from codelimit.common.Scanner import scan_path
+
+    top = scratch_dir("c11w")
+    real_walk = os.walk
+    try:
+        root = top / "t"
+        root.mkdir()
+        for d in [""] + WALK_DIRS:
+            (root / d).mkdir(exist_ok=True)
+            for f in WALK_FILES:
+                rel = (d + "/" if d else "") + f
+                (root / rel).write_bytes(U.content_for(rel, U.split(f)[1]))
+        rng = random.Random(order_seed)
+
+        def walk(tp, *a, **kw):
+            for r, dirs, files in real_walk(tp, *a, **kw):
+                rng.shuffle(dirs)
+                rng.shuffle(files)
+                yield r, dirs, files
+
+        os.walk = walk
+        Configuration.exclude = []
+        cb = scan_path(root)
+        return sorted(cb.files)
+    finally:
+        os.walk = real_walk
+        shutil.rmtree(top, ignore_errors=True)
+
+
+def walk_model(wd, tier):
+    """M: Walk.tla - every interleaving of directory / file visits on a tiny tree; G: the same tree scanned
+    for real under permuted traversal orders must give the model's final analysed set."""
+    mod = "\n".join(["---- MODULE WalkRun ----", "EXTENDS Walk",
+                     "cDir == {" + ", ".join(U.tla_name(n) for n in WALK_DIRS) + "}", "cFile == {" + ", ".join(U.tla_name(n) for n in WALK_FILES) + "}",
+                     "cHid == {" + ", ".join(U.tla_name(n) for n in WALK_DIRS + WALK_FILES if n.startswith(".")) + "}",
+                     "cExc == {" + ", ".join(U.tla_name(n) for n in WALK_DIRS if n in U.DEFAULTS_IN_POOL) + "}", "===="]) + "\n"
+    cfg = "\n".join(["SPECIFICATION Spec", "CONSTANTS", "  DirNames <- cDir", "  FileNames <- cFile", "  MaxDepth = 1", "  HiddenNames <- cHid", "  ExcludedNames <- cExc",
+                     "  Supported = {" + ", ".join(f'"{e}"' for e in U.supported_exts()) + "}",
+                     "INVARIANT ExactlyTheContributingFiles", "INVARIANT NothingBelowHiddenIsVisited", "INVARIANT OnlyContributingEverAnalysed", "INVARIANT EachFileOnce", "CHECK_DEADLOCK FALSE", ""])
+    m = tlc.run("WalkRun", cfg, wd, extra={"WalkRun.tla": mod}, dump=True, cfgname="WalkRun.cfg")
+    finals = set()
+    for st in read_dump(m.dump, only=lambda c: "pendingDirs = {}" in c and "pendingFiles = {}" in c):
+        finals.add(tuple(sorted("/".join(U.join(tuple(n)) for n in p) for p in st["analysed"])))
+    res = pmap(walk_orders, list(range(24 if tier == "quick" else 240)), timeout=120, chunk=4)
+    return m, finals, res
+
+
 def run(tier: str) -> int:
     b = BOUNDS[tier]
     t = Timer()
     rep = Reporter(PROP)
     wd = workdir(PROP)
+    wm, wfinals, wres = walk_model(wd, tier)
+    if wm.violated:
+        raise MachineryError(f"Walk.tla invariant violated: {wm.violated} (the model of the walk as coded must satisfy them)")
+    if len(wfinals) != 1:
+        raise MachineryError(f"Walk.tla has {len(wfinals)} different final analysed sets")
+    want_walk = list(next(iter(wfinals)))
+    for k, r in enumerate(wres):
+        if r[0] != "ok" or r[1] != want_walk:
+            rep.fail({"clause": "TraversalOrderIndependent", "site": "tiny tree of Walk.tla"}, {"kind": "walk", "order_seed": k, "expected": want_walk, "observed": r[1] if r[0] == "ok" else list(r)})
+    log(f"[C11] M Walk.tla: {wm.distinct} states over every interleaving, one final analysed set {want_walk}; {len(wres)} real scans under permuted orders, {t.s()}s")
     probs = pathspec_crosscheck(b["depth"])
     if probs:
         raise MachineryError(f"Selection.tla's reading of the pattern classes disagrees with pathspec, e.g. {probs[:3]}")
@@ -263,7 +328,8 @@ def run(tier: str) -> int:
     evidence.write(
         PROP, tier, level="model_checking", wall_s=t.s(), violations=rep.n_violations,
         coverage={
-            "states": m.distinct, "transitions": m.transitions, "traces_validated_against_impl": len(confs) + len(sub_jobs), "exhaustive": True,
+            "states": m.distinct + wm.distinct, "transitions": m.transitions + wm.transitions, "traces_validated_against_impl": len(confs) + len(sub_jobs) + len(wres), "exhaustive": True,
+            "walk_model": {"module": "Walk.tla", "states": wm.distinct, "invariants": ["ExactlyTheContributingFiles", "NothingBelowHiddenIsVisited", "OnlyContributingEverAnalysed", "EachFileOnce"], "real_orders": len(wres)},
             "samples": [{"patterns": [U.pattern_text(p) for p in c[0]], "sources": c[1], "root": c[2], "contributing": len(c[3])} for c in confs[:: max(1, len(confs) // 3)][:3]],
             "bounds": {"universe_depth": b["depth"], "universe_files": len(files), "dir_names": U.DIR_NAMES, "file_names": U.FILE_NAMES, "patterns": [U.pattern_text(p) for p in U.PATTERN_POOL],
                        "configurations_enumerated": m.distinct, "configurations_run": len(confs), "single_pattern_configurations": len(singles), "two_pattern_sampled": len(confs) - len(singles), "random_subtrees": len(sub_jobs)},
@@ -280,6 +346,13 @@ def run(tier: str) -> int:
 
 def replay(path: str) -> int:
     case = json.loads(open(path).read())
+    if case["kind"] == "walk":
+        r = guarded(walk_orders, case["order_seed"], 120)
+        print("expected:", case["expected"], "observed:", r)
+        if r[0] == "ok" and r[1] == case["expected"]:
+            return 0
+        print(f"VIOLATION property={PROP} replay={path}")
+        return 1
     pats = [tuple(p) for p in case["patterns"]]
     if case["kind"] == "universe":
         r = guarded(observe_config, (case["depth"], pats, case["sources"], case["root_form"]), 600)
